@@ -151,6 +151,10 @@ def main(out, dmax, cmax, nlayout, seed, anc_states):
         for cycles in (0, 1, 2, rnd.randint(3, max(3, cmax))):
             bits = tuple(rnd.randint(0, 1) for _ in range(nd))
             rows += one(desc, name, nd, bits, None, cycles, 'main', refocus=rf)
+            if anc_states and nd >= 3 and cycles <= 1:
+                # requested ancilla states that are not all equal (the order of the ancillas along the chain matters)
+                ab = tuple((k + cycles) % 2 for k in range(nd - 1))
+                rows += one(desc, name, nd, bits, ab, cycles, 'main', refocus=rf)
     json.dump(rows, open(out, 'w'))
     print(len(rows))
 
